@@ -37,6 +37,8 @@ struct Obs {
   mtimes_changed: bool,
   final_rel: Option<String>,
   stdout_is_torrent: bool,
+  /// the file at the final path (or link target) decodes strictly, with no trailing bytes
+  written_is_torrent: bool,
 }
 
 fn mtimes(root: &std::path::Path) -> BTreeMap<String, std::time::SystemTime> {
@@ -104,7 +106,7 @@ fn execute(ctx: &Ctx, c: &Cfg) -> Obs {
   }
   if let (Some(rel), true) = (&final_rel, matches!(c.output, "default" | "file" | "dir")) {
     match c.pre {
-      "file" => sb.write(rel, b"PRE-EXISTING OUTPUT"),
+      "file" => sb.write(rel, &b"PRE-EXISTING OUTPUT, LONGER THAN ANY TORRENT WRITTEN HERE\n".repeat(40)),
       "dir" => sb.mkdir(rel),
       "dangling" => {
         // a dangling symbolic link at the output path, pointing into an existing directory
@@ -163,7 +165,12 @@ fn execute(ctx: &Ctx, c: &Cfg) -> Obs {
   let mt_after = mtimes(&sb.path("in"));
   let mtimes_changed = mt_before.iter().any(|(k, v)| !k.ends_with(".torrent") && mt_after.get(k) != Some(v));
   let stdout_is_torrent = bencode::decode(&out.stdout).map(|v| v.get("info").is_some()).unwrap_or(false);
-  Obs { code: out.code, signal: out.signal, stderr: out.stderr_s(), stdout_len: out.stdout.len(), before, after, mtimes_changed, final_rel, stdout_is_torrent }
+  let written_rel = if c.pre == "dangling" { Some("elsewhere/through-link".to_string()) } else { final_rel.clone() };
+  let written_is_torrent = written_rel
+    .and_then(|r| std::fs::read(sb.path(&r)).ok())
+    .map(|b| bencode::decode(&b).map(|v| v.get("info").is_some()).unwrap_or(false))
+    .unwrap_or(false);
+  Obs { code: out.code, signal: out.signal, stderr: out.stderr_s(), stdout_len: out.stdout.len(), before, after, mtimes_changed, final_rel, stdout_is_torrent, written_is_torrent }
 }
 
 /// S: the documented effect. Returns (exit, Some(path) when exactly that path is new/replaced)
@@ -287,6 +294,8 @@ pub fn run(ctx: &Ctx) -> Report {
         pf = Some(format!("on success exactly `{rel}` must be new or replaced; changed paths: {changed:?}"));
       } else if !matches!(o.after.get(&rel), Some(Entry::File { len, .. }) if *len > 0) {
         pf = Some(format!("`{rel}` is not a non-empty regular file after success"));
+      } else if !o.written_is_torrent {
+        pf = Some(format!("`{rel}` does not hold exactly one torrent (canonical bencode with an `info` dictionary and nothing after it)"));
       }
     } else if !changed.is_empty() {
       pf = Some(format!("the file system must be left exactly as it was; changed paths: {changed:?} (exit {:?})", o.code));
